@@ -205,23 +205,19 @@ Proof. intros H. apply (dec_scalars_fuel (length l) l); [lia | exact H]. Qed.
 (* ------------------------------------------------------------------------------------------ *)
 (** * Percent escapes *)
 
-(* what the proofs need to know about _UNQUOTED (Gen.Facts.unquoted, regenerated on every run):
-   printable ASCII, and no '%' *)
-Lemma unquoted_facts :
-  forallb (fun c => printable c && negb (c =? PCT)) unquoted = true.
+(* The quoting lemmas are proved for an arbitrary `safe` argument of which only two things are
+   known -- after quote_from_bytes normalised it, it holds printable ASCII and no '%' -- and are
+   instantiated with _UNQUOTED (Gen.Facts.unquoted, regenerated on every run) at the end. *)
+Definition safe_fine (safe : list Z) : bool :=
+  forallb (fun c => printable c && negb (c =? PCT)) (safe_norm safe).
+
+Lemma unquoted_facts : safe_fine unquoted = true.
 Proof. vm_compute; reflexivity. Qed.
 
-Definition kept (b : Z) : bool := always_safe b || mem_z b (safe_norm unquoted).
-
-Lemma kept_props b : kept b = true -> 32 <= b <= 126 /\ b <> 37.
+Lemma mem_z_in b l : mem_z b l = true -> In b l.
 Proof.
-  unfold kept. intros H. apply orb_true_iff in H as [H|H].
-  - unfold always_safe, in_range in H. lia.
-  - unfold mem_z in H. apply existsb_exists in H as (x & Hin & Hx).
-    apply Z.eqb_eq in Hx. subst x.
-    unfold safe_norm in Hin. apply filter_In in Hin as [Hin _].
-    pose proof unquoted_facts as F. rewrite forallb_forall in F. specialize (F b Hin).
-    unfold printable, in_range, PCT in F. lia.
+  unfold mem_z. intros H. apply existsb_exists in H as (x & Hin & Hx).
+  apply Z.eqb_eq in Hx. subst x. exact Hin.
 Qed.
 
 Lemma hex_upper_cases v :
@@ -271,10 +267,25 @@ Proof.
   cbn [app flat_map unquote_item]. rewrite Ha, Hb. reflexivity.
 Qed.
 
+Section Quote.
+Variable safe : list Z.
+Hypothesis Hsafe : safe_fine safe = true.
+
+Definition kept (b : Z) : bool := always_safe b || mem_z b (safe_norm safe).
+
+Lemma kept_props b : kept b = true -> 32 <= b <= 126 /\ b <> 37.
+Proof.
+  unfold kept. intros H. apply orb_true_iff in H as [H|H].
+  - unfold always_safe, in_range in H. lia.
+  - apply mem_z_in in H.
+    pose proof Hsafe as F. unfold safe_fine in F. rewrite forallb_forall in F. specialize (F b H).
+    unfold printable, in_range, PCT in F. lia.
+Qed.
+
 (* one byte through quote and back *)
 Lemma unquote_quote_byte b rest :
   0 <= b <= 255 ->
-  unquote_impl (quote_byte (safe_norm unquoted) b ++ rest) = b :: unquote_impl rest.
+  unquote_impl (quote_byte (safe_norm safe) b ++ rest) = b :: unquote_impl rest.
 Proof.
   intros Hb. unfold quote_byte. fold (kept b).
   destruct (kept b) eqn:K.
@@ -288,12 +299,12 @@ Proof.
     + apply hex_upper_not_pct. lia.
 Qed.
 
-Lemma quote_from_bytes_cons safe b bs :
+Lemma quote_from_bytes_cons b bs :
   quote_from_bytes safe (b :: bs) = quote_byte (safe_norm safe) b ++ quote_from_bytes safe bs.
 Proof. reflexivity. Qed.
 
 Lemma unquote_quote_bytes bs :
-  bytes_ok bs = true -> unquote_impl (quote_from_bytes unquoted bs) = bs.
+  bytes_ok bs = true -> unquote_impl (quote_from_bytes safe bs) = bs.
 Proof.
   induction bs as [|b bs IH]; intros Hok; [reflexivity|].
   apply bytes_ok_cons in Hok as [Hb Hbs].
@@ -304,7 +315,7 @@ Qed.
 (* the wire form: printable ASCII, '%' only in front of two upper-case hex digits *)
 Lemma well_escaped_quote_byte b rest :
   0 <= b <= 255 ->
-  well_escaped (quote_byte (safe_norm unquoted) b ++ rest) = well_escaped rest.
+  well_escaped (quote_byte (safe_norm safe) b ++ rest) = well_escaped rest.
 Proof.
   intros Hb. unfold quote_byte. fold (kept b).
   destruct (kept b) eqn:K.
@@ -316,7 +327,7 @@ Proof.
 Qed.
 
 Lemma well_escaped_quote bs :
-  bytes_ok bs = true -> well_escaped (quote_from_bytes unquoted bs) = true.
+  bytes_ok bs = true -> well_escaped (quote_from_bytes safe bs) = true.
 Proof.
   induction bs as [|b bs IH]; intros Hok; [reflexivity|].
   apply bytes_ok_cons in Hok as [Hb Hbs].
@@ -324,7 +335,7 @@ Proof.
 Qed.
 
 Lemma printable_quote_byte b :
-  0 <= b <= 255 -> forallb printable (quote_byte (safe_norm unquoted) b) = true.
+  0 <= b <= 255 -> forallb printable (quote_byte (safe_norm safe) b) = true.
 Proof.
   intros Hb. unfold quote_byte. fold (kept b).
   destruct (kept b) eqn:K.
@@ -335,12 +346,14 @@ Proof.
 Qed.
 
 Lemma printable_quote bs :
-  bytes_ok bs = true -> forallb printable (quote_from_bytes unquoted bs) = true.
+  bytes_ok bs = true -> forallb printable (quote_from_bytes safe bs) = true.
 Proof.
   induction bs as [|b bs IH]; intros Hok; [reflexivity|].
   apply bytes_ok_cons in Hok as [Hb Hbs].
   rewrite quote_from_bytes_cons, forallb_app, printable_quote_byte, IH by assumption. reflexivity.
 Qed.
+
+End Quote.
 
 Lemma printable_is_ascii l : forallb printable l = true -> forallb is_ascii l = true.
 Proof.
@@ -404,8 +417,8 @@ Proof.
   intros s Hs. destruct (encode_msg_some s Hs) as (b & _ & Hok & Hdec & He).
   exists (quote_from_bytes unquoted b). split; [exact He|].
   unfold decode_grpc_message.
-  rewrite unquote_ascii by (apply printable_is_ascii, printable_quote, Hok).
-  rewrite unquote_quote_bytes by exact Hok. exact Hdec.
+  rewrite unquote_ascii by (apply printable_is_ascii, (printable_quote _ unquoted_facts), Hok).
+  rewrite (unquote_quote_bytes _ unquoted_facts) by exact Hok. exact Hdec.
 Qed.
 
 Lemma encode_msg_inv s e :
@@ -427,7 +440,7 @@ Lemma message_wire_safe :
   forallb printable e = true /\ well_escaped e = true.
 Proof.
   intros s e H. apply encode_msg_inv in H as (_ & b & _ & Hok & ->).
-  split; [apply printable_quote | apply well_escaped_quote]; exact Hok.
+  split; [apply (printable_quote _ unquoted_facts) | apply (well_escaped_quote _ unquoted_facts)]; exact Hok.
 Qed.
 
 (* the error branch: UnicodeEncodeError exactly for strings holding a lone surrogate *)
@@ -466,16 +479,22 @@ Proof.
   rewrite (HPQ x Hx), (IH Hl). reflexivity.
 Qed.
 
+Lemma is_byte_pct : is_byte PCT = true.
+Proof. reflexivity. Qed.
+
 Lemma unquote_item_bytes item :
   forallb is_byte item = true -> forallb is_byte (unquote_item item) = true.
 Proof.
-  intros H. unfold unquote_item.
-  destruct item as [|h1 [|h2 rest]]; try (cbn [forallb] in *; rewrite H; reflexivity).
-  destruct (hexval h1) as [a|] eqn:Ha; [|cbn [forallb] in *; rewrite H; reflexivity].
-  destruct (hexval h2) as [b|] eqn:Hb; [|cbn [forallb] in *; rewrite H; reflexivity].
+  intros H.
+  assert (Hlit : forallb is_byte (PCT :: item) = true).
+  { cbn [forallb]. rewrite is_byte_pct, H. reflexivity. }
+  unfold unquote_item.
+  destruct item as [|h1 [|h2 rest]]; [exact Hlit | exact Hlit |].
+  destruct (hexval h1) as [a|] eqn:Ha; [|exact Hlit].
+  destruct (hexval h2) as [b|] eqn:Hb; [|exact Hlit].
   apply hexval_range in Ha. apply hexval_range in Hb.
-  cbn [forallb] in *. apply andb_true_iff in H as [_ H]. apply andb_true_iff in H as [_ H].
-  rewrite H. unfold is_byte, in_range. lia.
+  cbn [forallb] in H. apply andb_true_iff in H as [_ H]. apply andb_true_iff in H as [_ H].
+  cbn [forallb]. rewrite H. unfold is_byte, in_range. lia.
 Qed.
 
 Lemma unquote_impl_bytes l : forallb is_ascii l = true -> bytes_ok (unquote_impl l) = true.
